@@ -4,6 +4,7 @@ import (
 	"fmt"
 	"go/types"
 	"sort"
+	"strings"
 
 	"golang.org/x/tools/go/ssa"
 )
@@ -292,6 +293,17 @@ func (eng *Engine) instrWrites(fc *FnCtx, in ssa.Instruction, li *loopInfo, regi
 				}
 				return
 			}
+			if callee != nil && callee.Pkg != nil && strings.HasPrefix(callee.Pkg.Pkg.Path(), "github.com/apernet/hysteria") {
+				// a repository function without a contract may write anything (see unknownCall)
+				for n := range eng.regions {
+					region(n, whole)
+				}
+				for g := range eng.cs.Ghosts {
+					ghost(g)
+				}
+				fc.loopAny = true
+				return
+			}
 			// unknown callee: byte slices passed may be overwritten
 			for _, a := range cc.Args {
 				if s, ok := a.Type().Underlying().(*types.Slice); ok && !isObjectType(s.Elem()) {
@@ -345,6 +357,7 @@ func (eng *Engine) instrWrites(fc *FnCtx, in ssa.Instruction, li *loopInfo, regi
 			for _, t := range fc.evalTargets(m.Expr, env) {
 				switch {
 				case t.Any:
+					fc.loopAny = true
 					for n := range eng.regions {
 						region(n, whole)
 					}
@@ -382,6 +395,13 @@ func (fc *FnCtx) havocLoopRegions(li *loopInfo, st *State) {
 	vc := fc.vc
 	classes := map[string][]wclass{}
 	ghosts := map[string]bool{}
+	fc.loopAny = false
+	defer func() {
+		if fc.loopAny {
+			vc.nextEpoch++
+			st.Epoch = vc.nextEpoch
+		}
+	}()
 	var blocks []*ssa.BasicBlock
 	for b := range li.body {
 		blocks = append(blocks, b)
@@ -423,12 +443,15 @@ func (fc *FnCtx) havocLoopRegions(li *loopInfo, st *State) {
 		}
 		if whole || nidx == 0 {
 			st.Heap[n] = vc.sc.fresh(n+"@", arraySort(nidx, leaf))
+			vc.typeInv(n, st.Heap[n], nidx)
 			continue
 		}
 		if onlyExact {
 			t := cur
 			for _, c := range classes[n] {
-				t = app("store", t, c.t, vc.sc.fresh("hv", arraySort(nidx-1, leaf)))
+				hv := vc.sc.fresh("hv", arraySort(nidx-1, leaf))
+				vc.typeInv(n, hv, nidx-1)
+				t = app("store", t, c.t, hv)
 			}
 			nm := vc.sc.fresh(n+"@", arraySort(nidx, leaf))
 			vc.sc.assert(eq(nm, t))
@@ -447,6 +470,7 @@ func (fc *FnCtx) havocLoopRegions(li *loopInfo, st *State) {
 		}
 		vc.sc.assert(fmt.Sprintf("(forall ((r Int)) (! (=> %s (= (select %s r) (select %s r))) :pattern ((select %s r))))", and(conds...), nm, cur, nm))
 		st.Heap[n] = nm
+		vc.typeInv(n, nm, nidx)
 	}
 	var gs []string
 	for g := range ghosts {
